@@ -23,7 +23,8 @@ from ..common import seed
 Q = 256
 METHODS = ["std", "iqr", "mad", "diffcov", "biweight", "qn", "sn", "gapper"]
 ZMETHODS = METHODS + ["doublemad"]
-EXACT = [(2, 1, 3), (-2, 1, 0), (1, 2, -4), (4, 1, 100), (-1, 1, 7), (3, 1, 0), (100, 1, -50), (-1, 4, 1), (4, 1, 1048576), (1, 1, 500000)]
+EXACT = [(2, 1, 3), (-2, 1, 0), (1, 2, -4), (4, 1, 100), (-1, 1, 7), (3, 1, 0), (100, 1, -50), (-1, 4, 1), (4, 1, 1048576), (1, 1, 500000),
+         (1, 2 ** 20, 0), (-1, 2 ** 30, 0)]       # data of amplitude 1e-6 .. 1e-9: a small scale is not a zero scale
 GENERAL = [(1, 100, 5), (-1, 100, 0), (1, 3, 2), (-10, 3, 1), (10, 3, -7)]
 
 
@@ -67,8 +68,13 @@ def job(spec):
         mag = float(np.max(np.abs(X1)))
         tol = 2 if exact else 2 + int(math.ceil(64 * 2.0 ** -23 * mag * Q))
         keep0, keep1 = X0.copy(), X1.copy()
+        # maps that shrink the data by 2^20 or more: the fixed point of the trace (1/256) cannot carry scales of 1e-7, so the observed
+        # scales are multiplied back by |ad/an| here and the event is judged as the unit map of the same sign
+        renorm = float(ad) / abs(an) if ad >= 2 ** 20 else 1.0
+        if renorm != 1.0:
+            an, ad = (1 if an > 0 else -1), 1
         base = {"lanes": L0, "an": an, "ad": ad, "b": b, "method": c["method"], "axis": -1 if axis is None else axis, "q": Q,
-                "tol": tol, "reldiv": 2000 if exact else 150, "cls": c["cls"], "exactmap": exact, "layout": lay}
+                "tol": tol, "reldiv": 2000 if exact else 150, "cls": c["cls"], "exactmap": exact, "layout": lay, "map_true": list(c["map"])}
         if c["kind"] == "scale":
             e = dict(base, a="scale", s0=[], s1=[], l1=[], finite=True, shape_ok=True, valcheck=bool(max(len(x) for x in L0) <= 16))
             try:
@@ -77,7 +83,7 @@ def job(spec):
                     r1 = np.atleast_1d(stats.estimate_scale(X1, c["method"], axis))
                     rk = np.asarray(stats.estimate_scale(X1, c["method"], axis, keepdims=True))
                     l1 = [np.atleast_1d(stats.estimate_scale(np.ascontiguousarray(ln), c["method"], None))[0] for ln in lanes_of(X1, axis)]
-                e["s0"], e["s1"], e["l1"] = [_fx(x) for x in r0.ravel()], [_fx(x) for x in r1.ravel()], [_fx(x) for x in l1]
+                e["s0"], e["s1"], e["l1"] = [_fx(x) for x in r0.ravel()], [_fx(x * renorm) for x in r1.ravel()], [_fx(x * renorm) for x in l1]
                 e["finite"] = bool(np.all(np.isfinite(r0)) and np.all(np.isfinite(r1)) and np.all(np.isfinite(l1)))
                 try:
                     np.broadcast_shapes(rk.shape, X1.shape)
@@ -151,9 +157,11 @@ def run(v) -> None:
         return np.array(a).reshape(shape).tolist()
     cases = []
     shapes = [(9,), (16,), (8, 9), (9, 11), (12, 8)]     # lanes of 8..16 (None axis on 2-D: up to 99 values: only relations + small classes)
-    for _ in range(35 if quick else 500):
+    for it in range(35 if quick else 500):
         shape = rng.choice(shapes)
         cls = rng.choice(["ties", "ties", "const", "zeromad", "outlier", "small", "firstlane"])
+        if it % 7 == 3:       # long lanes (50-100 values) of constant / tie-dominated data: one-pass formulas round below zero there
+            shape, cls = rng.choice([(100,), (50, 8), (8, 64)]), rng.choice(["const", "zeromad"])      # every lane at least 8 long (diffcov of 3 values is degenerate)
         X = data(cls, shape)
         axes = [None] if len(shape) == 1 else [None, 0, 1]
         layout = rng.choice(["C", "T", "S"]) if len(shape) == 2 else "C"
@@ -164,6 +172,10 @@ def run(v) -> None:
                 ex = rng.random() < 0.7 or m == "diffcov"
                 mp = rng.choice(EXACT if ex else GENERAL)
                 cases.append({"kind": "scale", "X": X, "axis": axis, "method": m, "map": mp, "exact": ex, "cls": cls, "layout": layout, "f64": len(cases) % 3 == 0})
+            if it % 7 == 3:      # the plain standardisation (mean / std) of long constant or tie-dominated lanes at levels that are not binary fractions
+                for mp in ((1, 100, 5), (10, 3, -7), (1, 3, 2)):
+                    cases.append({"kind": "z", "X": X, "axis": axis, "method": "std", "loc": "mean", "map": mp, "exact": False, "cls": cls,
+                                  "layout": layout, "f64": len(cases) % 3 == 0})
             for m in rng.sample(ZMETHODS, 4):
                 ex = rng.random() < 0.7 or m == "diffcov"
                 cases.append({"kind": "z", "X": X, "axis": axis if axis is not None else None, "method": m,
@@ -179,7 +191,7 @@ def run(v) -> None:
         v.nontrivial.add(json.dumps({k: e[k] for k in ("a", "lanes", "an", "ad", "b", "method", "axis")} | {"loc": e.get("loc", "")}))
     for tr, pos in tracecheck.validate("Trace_Robust", traces, verdict=v, label="robust estimator events", chunk=12, timeout=3000):
         e = tr["full"][abs(pos) - 1]
-        cfg = {"method": e["method"], "axis": e["axis"], "map": [e["an"], e["ad"], e["b"]], "cls": e["cls"], "exactmap": e["exactmap"], "layout": e.get("layout", "C"),
+        cfg = {"method": e["method"], "axis": e["axis"], "map": e.get("map_true", [e["an"], e["ad"], e["b"]]), "cls": e["cls"], "exactmap": e["exactmap"], "layout": e.get("layout", "C"),
                "nlanes": len(e["lanes"]), "lane0": e["lanes"][0], "loc": e.get("loc", ""), "lanes": e["lanes"]}
         if e["a"] == "scale":
             cfg["negative_a"] = e["an"] < 0
